@@ -2,7 +2,9 @@
    exporter part (one Write of line + LF, nothing on error) is stated by the row/stream model. *)
 From Coq Require Import ZArith List Bool Lia.
 From JL.std Require Import GoBase GoStrconv GoJsonNum GoJson GoJsonStrict GoJsonMarshal.
-From JL.proofs Require Import JsonStr JsonWrite JsonProofs.
+From JL.std Require Import GoVal.
+From JL.model Require Import Row Template TemplateJson.
+From JL.proofs Require Import JsonStr JsonWrite JsonProofs MarshalValid.
 Import ListNotations.
 Open Scope Z_scope.
 
@@ -22,3 +24,74 @@ Theorem C01_key_encoder :
     /\ (utf8_valid s = true -> decode_string (encode_string s) = Some s).
 Proof. exact encode_string_valid. Qed.
 Print Assumptions C01_key_encoder.
+
+(* ---- rows holding typed Go values (JL.model.Template writers over GoJson.encode_string) ----
+   Oracle hypotheses: the text encoding/json gives a finite float is a JSON number literal; the
+   text it gives a value of a dynamic type outside the model is the compact text of a JSON value.
+   Typing invariant (MarshalValid.mw_crow): []byte values are lists of bytes, time.Time values
+   have a non-negative nanosecond field [row_typed]; and, for validity, every key, every string
+   held by an auto / hidden column and every string exported by a string / binary / date column
+   is a list of bytes [row_bytes]. *)
+
+(* what row.MarshalJSON returns is the compact text of SOME JSON object tree *)
+Theorem C01_marshal_row_writes :
+  forall (O : oracles) (jfloat : bool -> Z -> option str) (jother : Z -> option str),
+    (forall is32 x s, jfloat is32 x = Some s -> is_json_number s = true) ->
+    (forall tag s, jother tag = Some s -> exists t, write_jv t = Some s) ->
+    forall n r s, row_typed O r ->
+      marshal_row O encode_string jfloat jother n r = Ok s -> exists m, write_jv (JObj m) = Some s.
+Proof. exact marshal_row_writes. Qed.
+Print Assumptions C01_marshal_row_writes.
+
+(* likewise json.Marshal of any raw value and value.MarshalJSON of any cell *)
+Theorem C01_marshal_value_writes :
+  forall (O : oracles) (jfloat : bool -> Z -> option str) (jother : Z -> option str),
+    (forall is32 x s, jfloat is32 x = Some s -> is_json_number s = true) ->
+    (forall tag s, jother tag = Some s -> exists t, write_jv t = Some s) ->
+    (forall n v s, rv_typed O v ->
+       marshal_rv O encode_string jfloat jother n v = Ok s -> exists t, write_jv t = Some s)
+    /\ (forall n c s, cell_typed O c ->
+       marshal_cell O encode_string jfloat jother n c = Ok s -> exists t, write_jv t = Some s).
+Proof.
+  intros O jfloat jother Hf Ho. split.
+  - exact (marshal_rv_writes O jfloat jother Hf Ho).
+  - exact (marshal_cell_writes O jfloat jother Hf Ho).
+Qed.
+Print Assumptions C01_marshal_value_writes.
+
+(* every successfully marshalled row is one valid JSON object without raw LF *)
+Theorem C01_marshal_row_valid :
+  forall (O : oracles) (jfloat : bool -> Z -> option str) (jother : Z -> option str),
+    (forall is32 x s, jfloat is32 x = Some s -> is_json_number s = true) ->
+    (forall tag s, jother tag = Some s -> exists t, write_jv t = Some s /\ jv_bytes_ok t) ->
+    forall n r s, row_bytes O r ->
+      marshal_row O encode_string jfloat jother n r = Ok s ->
+      is_json_object s = true /\ Forall (fun b => 32 <= b < 256) s /\ ~ In 10 s.
+Proof. exact marshal_row_valid. Qed.
+Print Assumptions C01_marshal_row_valid.
+
+(* exporter.Export: the single buffer handed to the single Write is one valid JSON object and LF
+   (export_bytes is by definition the argument of the only Write; every other outcome of the
+   model is reached before the Write) *)
+Theorem C01_export_line :
+  forall (O : oracles) (jfloat : bool -> Z -> option str) (jother : Z -> option str),
+    (forall is32 x s, jfloat is32 x = Some s -> is_json_number s = true) ->
+    (forall tag s, jother tag = Some s -> exists t, write_jv t = Some s /\ jv_bytes_ok t) ->
+    forall n to input out,
+      (forall row, create_row O parse_top_rv n to input = Ok row -> row_bytes O row) ->
+      export_bytes O encode_string parse_top_rv jfloat jother n to input = Ok out ->
+      exists line, out = line ++ [10] /\ is_json_object line = true /\ ~ In 10 line.
+Proof. exact export_line. Qed.
+Print Assumptions C01_export_line.
+
+Theorem C01_pipeline_line :
+  forall (O : oracles) (jfloat : bool -> Z -> option str) (jother : Z -> option str),
+    (forall is32 x s, jfloat is32 x = Some s -> is_json_number s = true) ->
+    (forall tag s, jother tag = Some s -> exists t, write_jv t = Some s /\ jv_bytes_ok t) ->
+    forall n ti to line out,
+      (forall r row, get_row O parse_top_rv n ti line = Ok r ->
+                     create_row O parse_top_rv n to (RV (CRow r)) = Ok row -> row_bytes O row) ->
+      pipeline O encode_string parse_top_rv jfloat jother n ti to line = Ok out ->
+      exists l, out = l ++ [10] /\ is_json_object l = true /\ ~ In 10 l.
+Proof. exact pipeline_line. Qed.
+Print Assumptions C01_pipeline_line.
